@@ -1334,3 +1334,56 @@ def share_clauses(ck, modname: str, mapping: Dict[str, Tuple[str, str]], keep=No
         ck.obs.append(Obligation(rid, o.file, o.function, o.statement, o.verdict, o.detail, o.line, o.path, o.nontrivial))
         n += 1
     return n
+
+
+def enumerate_to_index_form(loop: ast.For) -> bool:
+    """`for i, v in enumerate(Y): .. v .. Y[i] = w` read as `for i in range(len(Y)): .. Y[i] .. Y[i] = w`
+    (in place) when every read of v precedes the first store into Y[i]: the element variable
+    is then the element itself.  Returns True when the loop was rewritten."""
+    it = loop.iter
+    if not (isinstance(it, ast.Call) and isinstance(it.func, ast.Name) and it.func.id == "enumerate" and len(it.args) == 1 and not it.keywords and isinstance(it.args[0], ast.Name)):
+        return False
+    if not (isinstance(loop.target, ast.Tuple) and len(loop.target.elts) == 2 and all(isinstance(e, ast.Name) for e in loop.target.elts)):
+        return False
+    Y, i, v = it.args[0].id, loop.target.elts[0].id, loop.target.elts[1].id
+    first_store = None
+    for n in ast.walk(loop):
+        if isinstance(n, ast.Subscript) and isinstance(n.ctx, ast.Store) and isinstance(n.value, ast.Name) and n.value.id == Y:
+            ln = (getattr(n, "lineno", 0), getattr(n, "col_offset", 0))
+            first_store = ln if first_store is None or ln < first_store else first_store
+        if isinstance(n, ast.Name) and isinstance(n.ctx, ast.Store) and n.id in (v, i) and n not in loop.target.elts:
+            return False
+    for n in ast.walk(loop):
+        if isinstance(n, ast.Name) and n.id == v and isinstance(n.ctx, ast.Load) and first_store is not None:
+            # a read on the statement of the store itself (its right-hand side) is evaluated before the store
+            if (getattr(n, "lineno", 0),) > (first_store[0],):
+                return False
+
+    class _S(ast.NodeTransformer):
+        def visit_Name(self, n):
+            if n.id == v and isinstance(n.ctx, ast.Load):
+                return ast.copy_location(ast.Subscript(value=ast.Name(id=Y, ctx=ast.Load()), slice=ast.Name(id=i, ctx=ast.Load()), ctx=ast.Load()), n)
+            return n
+
+    loop.body = [_S().visit(s) for s in loop.body]
+    loop.target = ast.copy_location(ast.Name(id=i, ctx=ast.Store()), loop.target)
+    loop.iter = ast.copy_location(ast.Call(func=ast.Name(id="range", ctx=ast.Load()), args=[ast.Call(func=ast.Name(id="len", ctx=ast.Load()), args=[ast.Name(id=Y, ctx=ast.Load())], keywords=[])], keywords=[]), loop.iter)
+    ast.fix_missing_locations(loop)
+    for node in ast.walk(loop):
+        for child in ast.iter_child_nodes(node):
+            child._parent = node  # type: ignore[attr-defined]
+    return True
+
+
+def drop_caches(fi: FunctionInfo) -> None:
+    """forget what was computed about a function whose tree was just rewritten by a local
+    normal form (reaching definitions, path conditions)"""
+    for e in _ex.values():
+        e._rd.pop(fi.qualname, None)
+        e._carried_cache.clear()
+    for key in ("_pathcond_x", "_pathcond"):
+        if hasattr(fi.node, key):
+            try:
+                delattr(fi.node, key)
+            except AttributeError:
+                pass
